@@ -196,7 +196,7 @@ fn run(ctx: &mut Ctx) {
             }
         }
     }
-    let depth = if ctx.quick() { 4 } else { 5 };
+    let depth = if ctx.quick() { 4 } else if ctx.dev_profile() { 5 } else { 6 };
     ctx.bound("sequences", format!("all call sequences of length <= {} over 20 symbols (10 builder calls x 2 distinguishable contents)", depth));
     for len in 0..=depth {
         for code in 0..20usize.pow(len as u32) {
